@@ -194,6 +194,7 @@ func (s linSys) entails(f linForm) bool {
 
 // linEnv converts expressions to affine forms.
 type linEnv struct {
+	maxPaths int // paths kept by linWalk before it gives up (0: 256)
 	info  *types.Info
 	vars  map[types.Object]linForm // current affine value of locals
 	defs  map[types.Object][]ast.Expr
@@ -219,7 +220,7 @@ type linEnv struct {
 }
 
 func (e *linEnv) clone() *linEnv {
-	n := &linEnv{info: e.info, vars: map[types.Object]linForm{}, defs: e.defs, atoms: e.atoms, lens: e.lens, elems: map[string]linForm{}, decl: e.decl, alias: e.alias, prefix: e.prefix, onCond: e.onCond}
+	n := &linEnv{info: e.info, vars: map[types.Object]linForm{}, defs: e.defs, atoms: e.atoms, lens: e.lens, elems: map[string]linForm{}, decl: e.decl, alias: e.alias, prefix: e.prefix, onCond: e.onCond, maxPaths: e.maxPaths}
 	n.facts = append(linSys{}, e.facts...)
 	for k, v := range e.vars {
 		n.vars[k] = v
@@ -452,7 +453,11 @@ type linPath struct {
 // Returns the paths that fall through.
 func linWalk(paths []linPath, list []ast.Stmt, visit func(p linPath, st ast.Stmt)) []linPath {
 	for _, st := range list {
-		if len(paths) > 256 {
+		limit := 256
+		if len(paths) > 0 && paths[0].env.maxPaths > 0 {
+			limit = paths[0].env.maxPaths
+		}
+		if len(paths) > limit {
 			return paths
 		}
 		switch x := st.(type) {
